@@ -46,7 +46,7 @@ def run_one(row, tier, seed='1'):
         shutil.copytree('/repo/spatialpandas', os.path.join(scratch, 'spatialpandas'),
                         ignore=shutil.ignore_patterns('__pycache__'))
         path = os.path.join(scratch, row['file'])
-        src = open(path).read()
+        src = open(path).read() if not row['regex'].startswith('PATCH:') else ''
         if row['regex'].startswith('PATCH:'):
             p = subprocess.run(['patch', '-p1', '--quiet', '-i', os.path.join(HERE, row['regex'][6:])], cwd=scratch)
             if p.returncode:
